@@ -306,4 +306,43 @@ def tick (s : TickState) (port : PortMode) (nowMs : Nat) : TickState × List Nat
   let (en, lastTx, hellos) := tickEnumStage s.enum table s.lastTx port nowMs
   ({ mapping := mapping, enum := en, table := table, lastTx := lastTx }, hellos)
 
+/-! ## automata_tick with a clock that moves while the tick runs
+
+The function reads the millisecond clock once at entry (`nowMs`), then the seconds clock (`nowS`: only the session expiry uses
+this reading); every deadline helper, automaton step and RepeatBand routine it calls reads the clock AGAIN (`nowL`, ms; their
+seconds reading is `nowL / 1000`).  With all three equal this is `tick` (`tickR_same`). -/
+
+def enumHelloR (e : Fsm) (b : Band) (lastTx0 : Nat) (port : PortMode) (nowMs nowL : Nat) : Fsm × Band × Nat × List Nat :=
+  if b.helloTs > 0 ∧ nowMs ≥ b.helloTs then
+    let lastTx := match port with | .wired => lastTx0 | _ => 0
+    if lastTx > 0 ∧ diff64 nowMs lastTx < X.helloMinIntervalMs then
+      (e, { b with helloTs := lastTx + X.helloMinIntervalMs }, lastTx0, [])
+    else
+      let sent := match port with | .none => false | _ => true
+      let lastTx' := match port with | .wired => nowMs | _ => lastTx0
+      let b' := bandDoHello b nowL
+      let b'' := if b'.helloTs < nowMs + X.helloMinIntervalMs then { b' with helloTs := nowMs + X.helloMinIntervalMs } else b'
+      (stepEnumeration e X.enumHello (nowL / 1000), b'', lastTx', if sent then [nowMs] else [])
+  else (e, b, lastTx0, [])
+
+def enumBlockR (b : Band) (nowMs nowL : Nat) : Band :=
+  if b.blockTs > 0 ∧ nowMs ≥ b.blockTs then bandChooseHelloTime (bandUpdateStats b nowL) nowL else b
+
+def tickEnumStageR (en : Option (Fsm × Option Band)) (table : Option Table) (lastTx0 : Nat) (port : PortMode) (nowMs nowL : Nat) :
+    Option (Fsm × Option Band) × Nat × List Nat :=
+  match en with
+  | some (e, some b) =>
+    let u := enumUpdate e b (tableEmptyOf table) (allCompleteOf table) (nowL / 1000)
+    if u.1.state = 1 then
+      let r := enumHelloR u.1 u.2 lastTx0 port nowMs nowL
+      (some (r.1, some (enumBlockR r.2.1 nowMs nowL)), r.2.2.1, r.2.2.2)
+    else (some (u.1, some u.2), lastTx0, [])
+  | other => (other, lastTx0, [])
+
+def tickR (s : TickState) (port : PortMode) (nowMs nowS nowL : Nat) : TickState × List Nat :=
+  let (mapping, table) := tickMapStage s.mapping s.table (nowL / 1000)
+  let table := table.map (fun t => t.expire nowS)
+  let (en, lastTx, hellos) := tickEnumStageR s.enum table s.lastTx port nowMs nowL
+  ({ mapping := mapping, enum := en, table := table, lastTx := lastTx }, hellos)
+
 end LLTD
